@@ -213,6 +213,9 @@ func Open(ctx context.Context, S3 S3Interface, cfg Config, opts OpenOptions, whe
 			return nil, err
 		}
 		skipUnreadable = true
+		// a listed version may be superseded before it is read: its
+		// successor's writer then moves it to root/merged/, copy first
+		persists = []mast.Persist{rootPersist, mergedPersist}
 	}
 	tree, mergedRoots, unmergeableRoots, err = mergeRoots(ctx, versionsToLoad, cfg, crdtConfig, persists, when, opts.ForceRebranch, &kvVersion, skipUnreadable)
 	if err != nil {
